@@ -86,9 +86,11 @@ struct hash_tuple
 ///
 template <typename Pixel, std::size_t... I>
 auto pixel_to_tuple(Pixel const& p, boost::mp11::index_sequence<I...>)
-    -> decltype(std::make_tuple(p[I]...))
+    -> decltype(std::make_tuple(semantic_at_c<I>(p)...))
 {
-    return std::make_tuple(p[I]...);
+    // The axes are numbered by colour (0 - red, 1 - green, 2 - blue), not by position in memory:
+    // p[I] made the histogram of a bgr image differ from that of the same picture stored as rgb
+    return std::make_tuple(semantic_at_c<I>(p)...);
 }
 
 /// \ingroup Histogram-Helpers
